@@ -48,3 +48,8 @@ pub mod query {
 pub mod c18 {
     include!(concat!(env!("BROOD_VERIF_DIR"), "/harness/c18.rs"));
 }
+
+#[cfg(kani)]
+pub mod res {
+    include!(concat!(env!("BROOD_VERIF_DIR"), "/harness/res.rs"));
+}
